@@ -514,6 +514,7 @@ regp_init(RegP *p)
     p->ep.type = RP_EP_TCP;
     p->ep.source = source_empty;
     p->ep.sink = sink_null;
+    rfc1055_context_init(&p->ep.slip, RFC1055_DEFAULT);
     p->alloc = &rp_default_allocator;
 }
 
@@ -541,6 +542,8 @@ regp_use_channel(RegP *p, RPEndpointType type, Source source, Sink sink)
     p->ep.type = type;
     p->ep.source = source;
     p->ep.sink = sink;
+    /* A new channel starts with a fresh decoder. */
+    rfc1055_context_init(&p->ep.slip, RFC1055_DEFAULT);
 }
 
 void
@@ -853,8 +856,7 @@ regp_recv(RegP *p, RPMaybeFrame *mf)
     case RP_EP_SERIAL:
         /* FALLTHROUGH */
     default: {
-        RFC1055Context slip = RFC1055_CONTEXT_INIT_DEFAULT;
-        const int rc = rfc1055_decode(&slip, &p->ep.source, &recv);
+        const int rc = rfc1055_decode(&p->ep.slip, &p->ep.source, &recv);
         if (rc < 0) {
             if (cs.buffer.data != NULL) {
                 block_free(p->alloc, cs.buffer.data);
